@@ -68,8 +68,49 @@ for nm, tier in (("nonvert_pp0", "quick"), ("nonvert_pp1", "quick"), ("nonvert_p
     reg(f"cf_twins_{nm}", props={"C14": tier, "C01": tier, "C02": tier},
         claim=f"coincident pair ({nm}: pair verticality, predecessor kind 0 none/1 non-vertical/2 vertical, insertion order): lower/upper twin flags, "
               "typing, exactly one twin in result with the direction of the combined change, Inv(upper twin) for the successor", **CF)
-reg("cf_relational", props={"C05": "quick"}, claim="the four selection tables related on one flag state: xor = union (+) intersection, difference = union on subject / intersection on clipping edges, shared-edge subsets, directions", **CF)
+for _t in ("plain", "same", "diff"):
+    reg(f"cf_relational_{_t}", props={"C05": "quick"}, claim=f"({_t} edge) ""the four selection tables related on one flag state: xor = union (+) intersection, difference = union on subject / intersection on clipping edges, shared-edge subsets, directions", **dict(CF, est_s=200))
 reg("cf_selfop_symmetry", props={"C06": "quick"}, claim="pair level: A op A keeps (intersection/union) or drops (difference/xor) every shared edge; commutative operations are symmetric in the operand tags", **CF)
+
+# --------------------------------------------------------------------------------------- C18 L-DEPTH
+DEPTH = dict(file="splay/h_depth.rs", lemma="L-DEPTH", mode="recursion", unwind=8, inst="SplayTree<u8,u8,fn>", est_s=20, cap_s=600,
+             domain="chains of 12 nodes (left and right), unwind bound 8: recursion deeper than 8 on a 12-chain is reported by CBMC's recursion unwinding assertion")
+for nm, txt in (("drop_left_chain", "Drop of a left chain"), ("drop_right_chain", "Drop of a right chain"), ("clear_left_chain", "clear() of a left chain"), ("clear_right_chain", "clear() of a right chain"),
+                ("into_iter_partial_left", "dropping a partly consumed IntoIter (left chain, one next_back)"),
+                ("into_iter_partial_right", "dropping a partly consumed IntoIter (right chain, one next)"),
+                ("into_iter_unused", "dropping an unused IntoIter"),
+                ("remove_root_over_right_chain", "remove of a root whose left subtree is a 12-node right chain"), ("set_drop", "SplaySet built by monotone insertion, dropped (what subdivide's early break does)"),
+                ("get_far_end_left", "get of the deepest key, left chain"), ("get_far_end_right", "get of the deepest key, right chain"),
+                ("next_prev", "next/prev on a chain"), ("min_max", "min/max on a chain"), ("insert_far_end", "insert at the far end of a chain"),
+                ("remove_max_right_chain", "remove max of a right chain"), ("remove_min_left_chain", "remove min of a left chain"),
+                ("remove_root_left_chain", "remove root of a left chain"), ("remove_root_right_chain", "remove root of a right chain")):
+    reg(f"depth_{nm}", props={"C18": "quick"}, claim=f"{txt}: no recursion that follows the chain (stack use independent of the number of nodes)", **DEPTH)
+# natively the same situation (removed root whose left subtree has a long right spine) is reached through the
+# public API by removing the maximum of a tree built by descending insertion
+H["depth_remove_root_over_right_chain"]["probe"] = "remove_max_right_chain"
+for nm in ("drop_left_chain", "drop_right_chain", "clear_left_chain", "clear_right_chain", "into_iter_partial_left", "into_iter_partial_right", "into_iter_unused"):
+    reg(f"depth_{nm}_full", props={"C18": "quick"}, file="splay/h_depth.rs", lemma="L-DEPTH", unwind=30, inst="SplayTree<u8,u8,fn>", est_s=30, cap_s=600,
+        domain="same 12-node chain under unwind bound 30 (covers every loop): the whole teardown passes all checks, so nothing of the bound-8 run was cut off unseen",
+        claim=f"{nm}: complete pass (memory safety, no leak of control past the teardown) under a covering bound")
+
+# --------------------------------------------------------------------------------------- C17 L-SPLAY
+SEQ = dict(file="splay/h_seq.rs", lemma="L-SPLAY", unwind=5, inst="SplayTree<u8,u8,fn>", mem_gb=16,
+           domain="all keys (< 4) and values (u8) symbolic: every key order, duplicate and absent key, hence every tree shape the sequence can reach")
+QTXT = dict(get="get/contains", next="next (successor)", prev="prev (predecessor)", minmax="min/max/len/is_empty", shape="BST shape, node count, len",
+            refstab="reference stability of find_key/get results across further lookups", iter="consuming iteration in any mix of directions + size_hint")
+def _seq(name, tier, est):
+    ops, q = name.split("_")[1], name.split("_")[2]
+    reg(name, props={"C17": tier}, est_s=est, cap_s=2400 if tier == "thorough" else 900,
+        claim=f"after the update sequence [{' '.join({'i':'insert','r':'remove'}[c] for c in ops)}] with arbitrary keys: {QTXT[q]} agree with the sorted-array reference", **SEQ)
+for q in ("get", "next", "prev", "minmax", "shape", "refstab", "iter"):
+    _seq(f"sp_ii_{q}", "quick", 120)
+_seq("sp_ir_get", "quick", 100); _seq("sp_ir_shape", "quick", 100)
+for q in ("get", "next", "prev", "minmax", "shape", "refstab", "iter"):
+    _seq(f"sp_iii_{q}", "thorough", 900)
+for nm in ("sp_iir_get", "sp_iir_next", "sp_iir_shape", "sp_iri_shape", "sp_iri_get"):
+    _seq(nm, "thorough", 700)
+for nm in ("sp_iiri_shape", "sp_iiir_shape", "sp_iiir_get", "sp_iiii_shape", "sp_iiii_refstab"):
+    _seq(nm, "thorough", 2000)
 
 # --------------------------------------------------------------------------------------- tables
 PROP_BOUNDS = {}
